@@ -62,6 +62,8 @@ type IterSpec struct {
 	NextSeq     [][3]string  `json:"nextseq"`
 	Relayers    []string     `json:"relayers"`
 	ByPath      [][2]string  `json:"by_path,omitempty"` // (src, dst) pairs for GetAllPacketCommitmentsByPath
+	// packet relayer entries (SetPacketRelayer): no iterator exists for this family, every entry is read back by GetPacketRelayer
+	PRelayers [][3]string `json:"prelayers,omitempty"`
 }
 
 type Items3 struct {
@@ -136,6 +138,8 @@ type IterObs struct {
 	Relayers    CountObs    `json:"relayers"`
 	AllMeta     AllMetaObs  `json:"all_meta"` // ClientKeeper.GetAllClientMetadata(GetAllGenesisClients)
 	ByPath      []Items3    `json:"by_path"`  // GetAllPacketCommitmentsByPath per requested (src, dst)
+	// GetPacketRelayer of every written (src, dst, seq), in spec order: class and the value read (hex)
+	PRelayers KeysObs `json:"prelayers"`
 }
 
 // recStore records every Set that reaches the wrapped store.
@@ -291,6 +295,7 @@ func runIter(raw json.RawMessage) interface{} {
 		byPath = append(byPath, [2]string{string(unhex(p[0])), string(unhex(p[1]))})
 	}
 	comm, acks, recs, nseq := triples(s.Commitments), triples(s.Acks), triples(s.Receipts), triples(s.NextSeq)
+	prel := triples(s.PRelayers)
 	var rels []string
 	for _, r := range s.Relayers {
 		rels = append(rels, string(unhex(r)))
@@ -383,6 +388,11 @@ func runIter(raw json.RawMessage) interface{} {
 	for _, r := range rels {
 		r := r
 		do(func() { ck.RegisterRelayers(ctx, r, []string{"x"}, []string{"y"}) })
+	}
+	prelVal := func(i int) string { return "relayer-" + us(uint64(i)) }
+	for i, t := range prel {
+		i, t := i, t
+		do(func() { pk.SetPacketRelayer(ctx, t.src, t.dst, t.seq, prelVal(i)) })
 	}
 
 	// ---- observations
@@ -511,6 +521,12 @@ func runIter(raw json.RawMessage) interface{} {
 			o.AllMeta.Items = append(o.AllMeta.Items, m)
 		}
 		return nil
+	})
+	o.PRelayers.Keys, o.PRelayers.Vals = []string{}, []string{}
+	o.PRelayers.Class = catchClass(func() {
+		for _, t := range prel {
+			o.PRelayers.Vals = append(o.PRelayers.Vals, hlib.Hex([]byte(pk.GetPacketRelayer(ctx, t.src, t.dst, t.seq))))
+		}
 	})
 	o.ByPath = []Items3{}
 	for _, p := range byPath {
